@@ -43,3 +43,44 @@ func HarnessModIntUnmarshal(p0, p1, p2 int) {
 		vassert(buf[k] == orig[k], "mod.Int.UnmarshalBinary: the caller's buffer is not modified")
 	}
 }
+
+// C03 — mod.Int.MarshalBinary: exactly MarshalSize bytes, the value in the declared byte order with zero padding,
+// whatever the number of leading zero bytes of the value; decoding the result gives the value back and re-encoding is
+// byte-identical. p0 = modulus, p1 = byte order (0 big, 1 little endian), p2 = byte length of the value (0..size).
+func HarnessModIntMarshal(p0, p1, p2 int) {
+	m := compatiblemod.NewInt(int64(p0))
+	i := NewInt64(0, m)
+	if p1 == 1 {
+		i.BO = kyber.LittleEndian
+	}
+	size := i.MarshalSize()
+	// a value with exactly p2 significant bytes, below the modulus
+	var digits [8]int64
+	var v int64
+	for k := 0; k < p2; k++ {
+		if k == 0 {
+			digits[k] = int64(nondetU8Range(1, 255))
+		} else {
+			digits[k] = int64(nondetU8())
+		}
+		v = v*256 + digits[k]
+	}
+	vassume(v < int64(p0))
+	i.V.Int.SetInt64(v)
+	out, err := i.MarshalBinary()
+	vreach("returned")
+	vassert(err == nil && len(out) == size, "mod.Int.MarshalBinary: exactly MarshalSize bytes")
+	var got int64
+	for k := 0; k < len(out) && k < size; k++ {
+		if p1 == 1 {
+			got = got*256 + int64(out[size-1-k])
+		} else {
+			got = got*256 + int64(out[k])
+		}
+	}
+	vassert(got == v, "mod.Int.MarshalBinary: the bytes are the value in the declared byte order, zero padded")
+	j := NewInt64(1, m)
+	j.BO = i.BO
+	vassert(j.UnmarshalBinary(out) == nil && j.V.Int.Int64() == v, "mod.Int: decoding the encoding gives the value back")
+	vassert(i.V.Int.Int64() == v, "mod.Int.MarshalBinary does not change the value encoded")
+}
